@@ -465,6 +465,9 @@ Definition check_inv_acc_hi (p : list Q) (scale kappa : Q) (cells : list (Q * Q)
 Definition check_inv_acc_hi_cheb (c : list Q) (scale kappa : Q) (cells : list (Q * Q)) (K : nat) (tol : Q) : bool :=
   check_inv_acc_hi (c2p_q false c) scale kappa cells K tol.
 
+(* ---- C09: round_zeros(thresh) on the coefficient list *)
+Definition round_zeros_q (th : Q) (l : list Q) : list Q := map (fun c => if Qltb (Qabs c) th then 0%Q else c) l.
+
 (* ---- C09: the sup norm of a real-coefficient Laurent polynomial on the unit circle.
    |f(w)|^2 = (f * ~f)(w) = sum_m s_m cos(2 m t); the series s is supplied and verified by an exact
    Laurent-polynomial comparison, then bounded by the sup certificate. *)
